@@ -316,6 +316,23 @@ fn strat(tier: Tier) -> BoxedStrategy<Case> {
             }
             Case { text: BStr(v) }
         }),
+        // a long uniform stretch (its length straddles a power of two between 32 bytes and 16 KiB:
+        // block sizes, sniffing windows, buffer limits) between a short rich head and a short rich tail
+        1 => (proptest::collection::vec(piece(), 0..=3), 0usize..6, 5u32..=14, -3i32..=3, proptest::collection::vec(piece(), 0..=5)).prop_map(|(head, filler, k, delta, tail)| {
+            let unit: &[u8] = [&b"x\n"[..], b"a", b"ab \n", b"w\r\n", "\u{e9}\n".as_bytes(), b"a b"][filler];
+            let target = ((1i64 << k) + delta as i64).max(0) as usize;
+            let mut v = head.concat();
+            let base = v.len();
+            while v.len() - base + unit.len() <= target {
+                v.extend_from_slice(unit);
+            }
+            // pad to the exact target with single bytes so that the tail starts exactly there
+            while v.len() - base < target {
+                v.push(b'y');
+            }
+            v.extend(tail.concat());
+            Case { text: BStr(v) }
+        }),
         3 => atoms(n, false).prop_map(|a| Case { text: BStr(concat_atoms(&a)) }),
         3 => atoms(n, true).prop_map(|a| Case { text: BStr(concat_atoms(&a)) }),
         // raw bytes biased to interesting values
@@ -341,7 +358,7 @@ impl Prop for C06 {
     type Case = Case;
     const ID: &'static str = "C06";
     fn rule() -> String {
-        "cases = one byte string, tokenized by all six tokenizers as [u8] and (when valid UTF-8) as str; enumeration of all strings of <= 4 (thorough 5) atoms over a 13-atom core alphabet {a, b, space, tab, LF, CR, NBSP, U+2028, e+combining acute, flag emoji, NUL, invalid byte 0x80, truncated 3-byte lead}, plus proptest generation from a 43-atom alphabet (+11 invalid UTF-8 fragments), from ALL 25 Unicode White_Space code points with their neighbours, zero-width look-alikes (U+200B, U+FEFF, ...) and copies shifted into supplementary planes, from arbitrary chars, from long runs (tokens of hundreds of bytes, CRLF near block boundaries), and biased raw bytes. Oracle: non-empty tokens that are consecutive sub-slices of the input (pointer arithmetic) covering it; lines == reference splitter (LF, CRLF, lone CR), words == maximal runs by char::is_whitespace (invalid byte = non-whitespace), lines_and_newlines == maximal [CR LF]/other runs, chars = one scalar value (bytes: or one invalid sequence <= 3 non-ASCII bytes); str tokens == [u8] tokens for lines/words/chars/lines_and_newlines on valid UTF-8; accessors agree with the byte view. Non-trivial = at least 2 tokens; distinct = distinct input.".into()
+        "cases = one byte string, tokenized by all six tokenizers as [u8] and (when valid UTF-8) as str; enumeration of all strings of <= 4 (thorough 5) atoms over a 13-atom core alphabet {a, b, space, tab, LF, CR, NBSP, U+2028, e+combining acute, flag emoji, NUL, invalid byte 0x80, truncated 3-byte lead}, plus proptest generation from a 43-atom alphabet (+11 invalid UTF-8 fragments), from ALL 25 Unicode White_Space code points with their neighbours, zero-width look-alikes (U+200B, U+FEFF, ...) and copies shifted into supplementary planes, from arbitrary chars, from long runs (tokens of hundreds of bytes, CRLF near block boundaries), from a uniform stretch of 2^k +- 3 bytes (k = 5..14) between a short rich head and tail, and biased raw bytes. Oracle: non-empty tokens that are consecutive sub-slices of the input (pointer arithmetic) covering it; lines == reference splitter (LF, CRLF, lone CR), words == maximal runs by char::is_whitespace (invalid byte = non-whitespace), lines_and_newlines == maximal [CR LF]/other runs, chars = one scalar value (bytes: or one invalid sequence <= 3 non-ASCII bytes); str tokens == [u8] tokens for lines/words/chars/lines_and_newlines on valid UTF-8; accessors agree with the byte view. Non-trivial = at least 2 tokens; distinct = distinct input.".into()
     }
     fn assumptions() -> Vec<String> {
         vec!["unicode words/graphemes are only required to be lossless partitions (the two segmentation crates legitimately differ between str and [u8])".into()]
